@@ -202,12 +202,18 @@ def main():
         OPS.update({k[3:]: v for k, v in vars(ops_more).items() if k.startswith('op_')})
     except ImportError:
         pass
+    try:
+        import ops_store
+        OPS.update({k[3:]: v for k, v in vars(ops_store).items() if k.startswith('op_')})
+    except ImportError as e:
+        sys.stderr.write('ops_store not loaded: %s\n' % e)
     if os.environ.get('SPIL_FIRST_CFG'):
         from spil.sid.pathops.pathconfig import get_path_config
         get_path_config(os.environ['SPIL_FIRST_CFG'])
     if os.environ.get('SPIL_UNIVERSES'):
         import ops_more
-        ops_more.UNIVERSES = json.load(open(os.environ['SPIL_UNIVERSES']))
+        _u = json.load(open(os.environ['SPIL_UNIVERSES']))
+        ops_more.UNIVERSES = _u.get('universes', _u)
     n = 0
     with open(sys.argv[1]) as fin, open(sys.argv[2], 'w') as fout:
         for line in fin:
